@@ -510,7 +510,8 @@ class Pair:
 
         def _err(conn, exc):
             if not self.server_ready.done():
-                self.server_ready.set_exception(exc)
+                self.server_ready.set_exception(
+                    exc or asyncssh.ConnectionLost('closed'))
                 self.server_ready.exception()
 
         self.s = asyncssh.SSHServerConnection(loop, self.sopts, _acceptor,
